@@ -7,6 +7,7 @@ import (
 	"os"
 	"path/filepath"
 	"reflect"
+	"regexp"
 	"strings"
 
 	"github.com/llir/llvm/ir"
@@ -73,6 +74,29 @@ cp:
 cl:
 	%q = cleanuppad within none [i8* %addr]
 	cleanupret from %q unwind to caller
+done:
+	unreachable
+}
+define void @eh2(i8* %addr) personality i32 (...)* @pers {
+entry:
+	invoke void @v() to label %done unwind label %cs
+cs:
+	%s = catchswitch within none [label %h1, label %h2, label %h3] unwind label %cl
+h1:
+	%p1 = catchpad within %s [i8* %addr]
+	catchret from %p1 to label %done
+h2:
+	%p2 = catchpad within %s []
+	catchret from %p2 to label %done
+h3:
+	%p3 = catchpad within %s [i32 3]
+	catchret from %p3 to label %done
+cl:
+	%q = cleanuppad within none []
+	cleanupret from %q unwind label %cl2
+cl2:
+	%q2 = cleanuppad within none [i8* %addr]
+	cleanupret from %q2 unwind to caller
 done:
 	unreachable
 }
@@ -183,6 +207,19 @@ func runC15(c *config) {
 			c15Succs(c, f)
 			c15ReplaceAll(c, f)
 		}
+		// the successor view is live: on a fresh parse, redirect one branch target through its operand slot
+		// after Succs() has been queried once
+		if m2, oc, _ := parseGuard(src); oc == ocOk {
+			for _, f := range m2.Funcs {
+				c15SuccsLive(c, f)
+			}
+		}
+		// correspondence for the cache model: histories of Succs() queries and target writes
+		if m3, oc, _ := parseGuard(src); oc == ocOk {
+			for fi, f := range m3.Funcs {
+				c15SuccsHistory(c, newRng(c.seed, fmt.Sprintf("c15h-%d-%d", len(src), fi)), f)
+			}
+		}
 	}
 	o.StatN("kinds_reached", len(kinds))
 	var ks []string
@@ -263,6 +300,8 @@ func c15Check(c *config, f *ir.Func, u c15User, kind string) {
 	}
 }
 
+var c15LabelRe = regexp.MustCompile(`label (%[-a-zA-Z$._0-9]+)`)
+
 func c15Succs(c *config, f *ir.Func) {
 	o := c.out
 	inFunc := map[*ir.Block]bool{}
@@ -330,6 +369,28 @@ func c15Succs(c *config, f *ir.Func) {
 				if v != 0 {
 					bad = "successors are not the branch targets"
 				}
+			}
+		}
+		// ... in order: the order of the terminator's own target fields, which is the order of the `label`
+		// operands in its printed form
+		if bad == "" {
+			for i := range succs {
+				if succs[i] != want[i] {
+					bad = fmt.Sprintf("successor %d is %s, the branch target at that position is %s", i, succs[i].Ident(), want[i].Ident())
+					break
+				}
+			}
+		}
+		if bad == "" {
+			labels := c15LabelRe.FindAllStringSubmatch(b.Term.LLString(), -1)
+			if len(labels) == len(succs) {
+				for i := range succs {
+					if labels[i][1] != succs[i].Ident() {
+						bad = fmt.Sprintf("successor %d is %s, the printed terminator names %s at that position", i, succs[i].Ident(), labels[i][1])
+						break
+					}
+				}
+				o.Stat("succs.order_checked_against_text")
 			}
 		}
 		if bad != "" {
@@ -401,5 +462,97 @@ func c15ReplaceAll(c *config, f *ir.Func) {
 		o.Fail("replace_all_uses", cls, "a use of the replaced value is left behind", map[string]string{"func": f.Ident(), "value": ident, "body": body.String()})
 	} else {
 		o.Pass("replace_all_uses")
+	}
+}
+
+// c15SuccsLive: Succs(), then a new target written through the operand slot that holds a successor, then
+// Succs() again: the list must be the branch targets as they are now.
+func c15SuccsLive(c *config, f *ir.Func) {
+	o := c.out
+	if len(f.Blocks) < 2 {
+		return
+	}
+	for _, b := range f.Blocks {
+		if b.Term == nil {
+			continue
+		}
+		before := append([]*ir.Block{}, b.Term.Succs()...)
+		if len(before) == 0 {
+			continue
+		}
+		// the first slot holding the first successor
+		var slot *value.Value
+		for _, op := range b.Term.Operands() {
+			if blk, ok := (*op).(*ir.Block); ok && blk == before[0] {
+				slot = op
+				break
+			}
+		}
+		if slot == nil {
+			continue
+		}
+		var nb *ir.Block
+		for _, cand := range f.Blocks {
+			if cand != before[0] {
+				nb = cand
+				break
+			}
+		}
+		*slot = nb
+		after := b.Term.Succs()
+		o.Stat("succs_live.terminators")
+		text := b.Term.LLString()
+		if len(after) == 0 || after[0] != nb {
+			o.Fail("succs_live", "succs_stale_after_write", "Succs() still lists the old target after a new one was written through the operand slot", map[string]string{"term": text, "old": before[0].Ident(), "new": nb.Ident(), "kind": fmt.Sprintf("%T", b.Term)})
+		} else {
+			o.Pass("succs_live")
+		}
+		*slot = before[0]
+	}
+}
+
+// c15SuccsHistory: random histories of Succs() queries and writes through the block-valued operand slots
+// (the i-th such slot is target i), against Model/Users.v trun
+func c15SuccsHistory(c *config, r *rng, f *ir.Func) {
+	o := c.out
+	idx := map[*ir.Block]int{}
+	for i, b := range f.Blocks {
+		idx[b] = i
+	}
+	for _, b := range f.Blocks {
+		if b.Term == nil {
+			continue
+		}
+		var slots []*value.Value
+		for _, op := range b.Term.Operands() {
+			if _, ok := (*op).(*ir.Block); ok {
+				slots = append(slots, op)
+			}
+		}
+		if len(slots) == 0 {
+			continue
+		}
+		var targets []string
+		for _, sl := range slots {
+			targets = append(targets, fmt.Sprint(idx[(*sl).(*ir.Block)]))
+		}
+		var ops, outs []string
+		n := 1 + r.intn(6)
+		for k := 0; k < n; k++ {
+			if r.chance(55) {
+				ops = append(ops, "S")
+				var ss []string
+				for _, sb := range b.Term.Succs() {
+					ss = append(ss, fmt.Sprint(idx[sb]))
+				}
+				outs = append(outs, strings.Join(ss, ","))
+			} else {
+				i, j := r.intn(len(slots)), r.intn(len(f.Blocks))
+				*slots[i] = f.Blocks[j]
+				ops = append(ops, fmt.Sprintf("W:%d:%d", i, j))
+			}
+		}
+		o.Case("succs_hist", []string{strings.Join(targets, ","), strings.Join(ops, ",")}, []string{strings.Join(outs, ";")})
+		o.Stat("succs_histories")
 	}
 }
